@@ -1,7 +1,7 @@
 (* C19 -- peeking the label or fragment id agrees with decapsulation. Pinned statements only. *)
 Require Import GSE.model.Base GSE.model.Types GSE.model.Ext GSE.model.Encap GSE.model.Memory GSE.model.Decap
   GSE.proofs.Tactics GSE.proofs.BaseLemmas GSE.proofs.HeaderLemmas GSE.proofs.EncapSpec GSE.proofs.EncapProps
-  GSE.proofs.DecapBase GSE.proofs.DecapSpec GSE.proofs.RoundTrip GSE.proofs.Peek.
+  GSE.proofs.DecapBase GSE.proofs.DecapSpec GSE.proofs.RoundTrip GSE.proofs.Peek GSE.proofs.ExtSpec GSE.proofs.ExtTrip GSE.proofs.ExtProps.
 Open Scope N_scope.
 #[local] Opaque pkt_complete pkt_first pkt_end pkt_inter.
 
@@ -31,6 +31,13 @@ Proof.
     rewrite lenN_takeN. lia.
 Qed.
 
+(* the same for every start/complete packet of encap_ext (any extension chain built by Extension::new) *)
+Theorem c19_peek_start_ext : forall crc S pdu fid pt lab buf exts S' buf' st tail, enc_wf S -> label_wf lab -> Forall ext_built exts ->
+  encap_ext crc S pdu fid pt lab buf exts = Ret (S', buf', inl st) ->
+  peek (takeN (match st with Completed n | Fragmented n _ => n end) buf' ++ tail)
+  = Ret (peek_label (snd (check_reuse_hl S lab))).
+Proof. exact peek_start_ext. Qed.
+
 (* For every intermediate and end packet produced by encap_frag, the peek function returns the fragment id, which
    is the id decap looks up (hd0 (dropN 2 packet) in the closed form of decap; c02_roundtrip). *)
 Theorem c19_peek_frag : forall pdu ctx buf buf' st tail, lenN pdu <= 65535 ->
@@ -56,3 +63,4 @@ Qed.
 
 Print Assumptions c19_peek_start.
 Print Assumptions c19_peek_frag.
+Print Assumptions c19_peek_start_ext.
